@@ -12,7 +12,7 @@ from ..gen import docs as D
 from ..gen import queries as Q
 from ..gen.filters import FilterGen
 from ..gen.render import Renderer
-from ..run import Stats, hyp_run, mix
+from ..run import Stats, hyp_run, mix, rng_for
 from ..strict import short
 
 import jsonpath
@@ -217,7 +217,7 @@ def t_queries(seed, n):
 
     def body(x):
         mode, s, txt = x
-        rng = random.Random(s)
+        rng = rng_for(s)
         if mode == "soup":
             text = soup_text(rng)
         elif mode == "mutation":
@@ -388,7 +388,7 @@ def t_pointers(seed, n):
 
     def body(x):
         mode, s, txt, ue, ud = x
-        rng = random.Random(s)
+        rng = rng_for(s)
         stats.case()
         if mode == "rel":
             if rng.random() < 0.6:
@@ -450,7 +450,7 @@ def t_patches(seed, n):
 
     def body(x):
         s, ue, ud = x
-        rng = random.Random(s)
+        rng = rng_for(s)
         stats.case()
         ops = gen_patch(rng)
         case = {"kind": "patch", "ops": ops, "unicode_escape": ue, "uri_decode": ud, "origin": "patch-soup"}
